@@ -29,12 +29,18 @@ RandSel(z) ==
       [] RandomElement(1..4) = 1 -> [mode |-> "mixed", bits |-> [i \in 1..RandomElement(2..7) |-> RandomElement(BOOLEAN)]]
       [] OTHER -> [mode |-> "subset", bits |-> [i \in 1..RandomElement(2..7) |-> RandomElement(BOOLEAN)]]
 
+\* how the requests reach SetBreakpoints (a call that carries requests of a kind - line, function - replaces the
+\* breakpoints of THAT kind; a kind it does not mention is left as it is): all in one call; the lines in one call and
+\* the functions in another, in either order (the way debug-adapter clients do it); and, after those, a call without
+\* any request, or a call that asks for a function that does not exist when the selection has no function breakpoint:
+\* the breakpoints in force are the same in every shape
+CallShapes == {"one", "split", "split-rev", "plus-empty", "plus-unknown"}
 \* when the breakpoints are installed: before the first resume, or at the entry stop
 \* reached by an initial step-into (the way a debug-adapter client does it)
-InitDbg == prog = Empty /\ res = Run(Empty) /\ bsel = [mode |-> "none", bits |-> <<>>] /\ policy = <<"continue">> /\ setat = "entry"
+InitDbg == prog = Empty /\ res = Run(Empty) /\ bsel = [mode |-> "none", bits |-> <<>>, calls |-> "one"] /\ policy = <<"continue">> /\ setat = "entry"
 NextDbg == /\ prog' = GenProg(prog)
            /\ res' = Run(prog')
-           /\ bsel' = RandSel(prog')
+           /\ bsel' = LET b == RandSel(prog') IN [mode |-> b.mode, bits |-> b.bits, calls |-> RandomElement(CallShapes)]
            /\ policy' = RandPolicy(prog')
            /\ setat' = IF RandomElement(1..4) = 1 THEN "before" ELSE "entry"
 SpecDbg == InitDbg /\ [][NextDbg]_dvars
